@@ -11,6 +11,7 @@ import (
 	"errors"
 	"fmt"
 	"math/rand/v2"
+	"os"
 	"runtime/debug"
 	"sort"
 	"strings"
@@ -38,10 +39,14 @@ type stored struct {
 // captureStore is the TSDBStore of the PointsWriter: it records which rows are sent to
 // which shard (rows are identified by their unique integer field "id").
 type captureStore struct {
-	mu  sync.Mutex
-	got map[int64][]stored
-	err []string
+	mu      sync.Mutex
+	got     map[int64][]stored
+	err     []string
+	offline map[uint32]bool
+	refused map[int64]bool
 }
+
+var errPtOffline = errors.New("c11: partition is offline, store unreachable")
 
 func (s *captureStore) WriteRows(ctx *netstorage.WriteContext, nodeID uint64, pt uint32, database, rp string, timeout time.Duration) error {
 	s.mu.Lock()
@@ -50,6 +55,7 @@ func (s *captureStore) WriteRows(ctx *netstorage.WriteContext, nodeID uint64, pt
 		s.err = append(s.err, "WriteRows without shard")
 		return nil
 	}
+	off := s.offline[pt]
 	for i := range ctx.Rows {
 		r := &ctx.Rows[i]
 		id := int64(-1)
@@ -62,7 +68,15 @@ func (s *captureStore) WriteRows(ctx *netstorage.WriteContext, nodeID uint64, pt
 			s.err = append(s.err, "row without id field")
 			continue
 		}
+		if off {
+			// a partition that is offline cannot acknowledge: these rows are not accepted
+			s.refused[id] = true
+			continue
+		}
 		s.got[id] = append(s.got[id], stored{ShardID: ctx.Shard.ID, Pt: pt, Owners: append([]uint32{}, ctx.Shard.Owners...)})
+	}
+	if off {
+		return errPtOffline
 	}
 	return nil
 }
@@ -113,7 +127,7 @@ func parseSelect(q string) (*influxql.SelectStatement, error) {
 }
 
 // readSet runs the real query preparation for q and returns the consulted shard ids.
-func readSet(m *sqlMeta, q string, mst string) (map[uint64]bool, string, error) {
+func readSet(m *sqlMeta, q string, mst string) (map[string]map[uint64]bool, string, error) {
 	st, err := parseSelect(q)
 	if err != nil {
 		return nil, "", fmt.Errorf("parse %q: %w", q, err)
@@ -124,14 +138,31 @@ func readSet(m *sqlMeta, q string, mst string) (map[uint64]bool, string, error) 
 	if err != errStop {
 		return nil, "", fmt.Errorf("prepare %q: %v", q, err)
 	}
-	out := map[uint64]bool{}
+	out := map[string]map[uint64]bool{}
+	if os.Getenv("C11_DEBUG") != "" {
+		fmt.Printf("DEBUG %s\n  timerange [%d,%d] cond %v\n  shardmap %+v\n", q, rec.tr.MinTimeNano(), rec.tr.MaxTimeNano(), rec.cond, rec.got.ShardMap)
+	}
+	if os.Getenv("C11_DEBUG") != "" {
+		gs, _ := m.Client.ShardGroupsByTimeRange(dbName, rpName, time.Unix(0, rec.tr.MinTimeNano()), time.Unix(0, rec.tr.MaxTimeNano()))
+		msti, _ := m.Client.Measurement(dbName, rpName, mst)
+		for i := range gs {
+			alive := m.Client.GetAliveShards(dbName, &gs[i], true)
+			ski := msti.GetShardKey(gs[i].ID)
+			shs := gs[i].TargetShards(msti, ski, rec.cond, alive)
+			e2, _ := influxql.ParseExpr("host = 'a' OR usage > 1")
+			fmt.Printf("  simple: %+v\n  walk: %s\n", gs[i].TargetShards(msti, ski, e2, alive), dumpExpr(rec.cond))
+			fmt.Printf("  group %d alive %v ski %+v init %d idx %v -> %+v\n", gs[i].ID, alive, ski, msti.InitNumOfShards, msti.ShardIdexes, shs)
+		}
+	}
 	for src, byPt := range rec.got.ShardMap {
-		if src.Measurement != mst {
-			continue
+		set := out[src.Measurement]
+		if set == nil {
+			set = map[uint64]bool{}
+			out[src.Measurement] = set
 		}
 		for _, shs := range byPt {
 			for _, sh := range shs {
-				out[sh.ID] = true
+				set[sh.ID] = true
 			}
 		}
 	}
@@ -148,18 +179,20 @@ func readSet(m *sqlMeta, q string, mst string) (map[uint64]bool, string, error) 
 type Query struct {
 	Mst  string `json:"mst"`
 	Cond *Cond  `json:"cond"`
-	TMin *int64 `json:"tmin,omitempty"` // time >= TMin
-	TMax *int64 `json:"tmax,omitempty"` // time <  TMax
+	TMin *I64   `json:"tmin,omitempty"` // time >= TMin
+	TMax *I64   `json:"tmax,omitempty"` // time <  TMax
 	// Form varies where the time terms are placed in the text
 	Form int `json:"form"`
+	// FromRegex: FROM /^m[0-9]$/ instead of the single measurement (all measurements of the catalogue)
+	FromRegex bool `json:"from_regex,omitempty"`
+	// Hint: full_series | specific_series (the condition then names every tag of one series)
+	Hint string `json:"hint,omitempty"`
 }
 
 func (q *Query) Text() string {
 	c := q.Cond.String()
-	if q.Cond.Kind == kOr || q.Form%2 == 1 {
-		if q.TMin != nil || q.TMax != nil || q.Form%2 == 1 {
-			c = "(" + c + ")"
-		}
+	if (q.Cond.Kind == kOr && (q.TMin != nil || q.TMax != nil)) || q.Form%2 == 1 {
+		c = "(" + c + ")"
 	}
 	var pre, post []string
 	if q.TMin != nil {
@@ -185,11 +218,19 @@ func (q *Query) Text() string {
 		}
 	}
 	parts := append(append(pre, c), post...)
-	return fmt.Sprintf("SELECT id FROM %s.%s.%s WHERE %s", dbName, rpName, q.Mst, strings.Join(parts, " AND "))
+	from := q.Mst
+	if q.FromRegex {
+		from = "/^m[0-9]$/"
+	}
+	hint := ""
+	if q.Hint != "" {
+		hint = "/*+ " + q.Hint + " */ "
+	}
+	return fmt.Sprintf("SELECT %sid FROM %s.%s.%s WHERE %s", hint, dbName, rpName, from, strings.Join(parts, " AND "))
 }
 
 func (q *Query) matches(p *Point) bool {
-	if p.Mst != q.Mst {
+	if p.Mst != q.Mst && !q.FromRegex {
 		return false
 	}
 	if q.TMin != nil && p.T < *q.TMin {
@@ -197,6 +238,24 @@ func (q *Query) matches(p *Point) bool {
 	}
 	if q.TMax != nil && p.T >= *q.TMax {
 		return false
+	}
+	if q.Hint != "" {
+		// a series hint makes the query address exactly the series whose tag set the condition
+		// spells out; only points of that series are unambiguous matches
+		n := 0
+		var cnt func(c *Cond)
+		cnt = func(c *Cond) {
+			if c.Kind == kAnd {
+				cnt(c.L)
+				cnt(c.R)
+			} else {
+				n++
+			}
+		}
+		cnt(q.Cond)
+		if len(p.Tags) != n {
+			return false
+		}
 	}
 	return q.Cond.Eval(p)
 }
@@ -251,7 +310,12 @@ func writeAll(c reporter, cs *Case, caseKey string) *caseResult {
 		c.Broken("catalogue %s: %v", caseKey, err)
 		return nil
 	}
-	store := &captureStore{got: map[int64][]stored{}}
+	store := &captureStore{got: map[int64][]stored{}, offline: map[uint32]bool{}, refused: map[int64]bool{}}
+	if cs.Spec.HaPolicy == "write-available-first" {
+		for _, p := range cs.Spec.OfflinePts {
+			store.offline[p] = true
+		}
+	}
 	pw := coordinator.NewPointsWriter(2 * time.Second)
 	pw.MetaClient = m
 	pw.TSDBStore = store
@@ -270,7 +334,8 @@ func writeAll(c reporter, cs *Case, caseKey string) *caseResult {
 			return fmt.Errorf("parser returned %d rows for %d lines", len(rows.Rows), len(idx))
 		}
 		err := pw.RetryWritePointRows(dbName, rpName, rows.Rows)
-		if err != nil && !strings.Contains(err.Error(), "partial write") && !strings.Contains(err.Error(), "point should have all shard key") {
+		if err != nil && !strings.Contains(err.Error(), "partial write") && !strings.Contains(err.Error(), "point should have all shard key") &&
+			!strings.Contains(err.Error(), errPtOffline.Error()) {
 			return err
 		}
 		return nil
@@ -304,6 +369,15 @@ func writeAll(c reporter, cs *Case, caseKey string) *caseResult {
 		p := &cs.Points[i]
 		got := first[p.ID]
 		c.Count("points-routed", 1)
+		if store.refused[p.ID] {
+			// routed to a shard of an offline partition (fixed SHARDS n mapping or RANGE sharding ignore
+			// availability): the store would not acknowledge, so the point is not an accepted point
+			c.Count("points-refused(shard on offline partition)", 1)
+			if len(got) != 0 {
+				c.Violation("write:stored-in-2-shards", fmt.Sprintf("point %d was sent to an offline partition and to shard(s) %v", p.ID, got), witnessOne(cs, nil, p))
+			}
+			continue
+		}
 		if expectReject(&cs.Spec, p) {
 			rejects++
 			if len(got) != 0 {
@@ -324,7 +398,7 @@ func writeAll(c reporter, cs *Case, caseKey string) *caseResult {
 			c.Violation("write:shard-without-owner", fmt.Sprintf("point %d mapped to shard %d which has no owner partition", p.ID, got[0].ShardID), witnessOne(cs, nil, p))
 			continue
 		}
-		t := time.Unix(0, p.T)
+		t := time.Unix(0, int64(p.T))
 		if t.Before(loc.Group.StartTime) || !t.Before(loc.Group.EndTime) {
 			c.Violation("write:group-does-not-cover-time", fmt.Sprintf("point %d t=%d stored in shard %d of group %d [%d,%d)", p.ID, p.T, got[0].ShardID,
 				loc.Group.ID, loc.Group.StartTime.UnixNano(), loc.Group.EndTime.UnixNano()), witnessOne(cs, nil, p))
@@ -333,11 +407,11 @@ func writeAll(c reporter, cs *Case, caseKey string) *caseResult {
 		res.shardOf[p.ID] = got[0].ShardID
 		// boundary class of the point inside its group
 		switch {
-		case p.T == loc.Group.StartTime.UnixNano():
+		case int64(p.T) == loc.Group.StartTime.UnixNano():
 			c.Distinct("point-boundary-class", "t==group.start")
-		case p.T == loc.Group.EndTime.UnixNano()-1:
+		case int64(p.T) == loc.Group.EndTime.UnixNano()-1:
 			c.Distinct("point-boundary-class", "t==group.end-1ns")
-		case p.T == loc.Group.StartTime.UnixNano()+1:
+		case int64(p.T) == loc.Group.StartTime.UnixNano()+1:
 			c.Distinct("point-boundary-class", "t==group.start+1ns")
 		default:
 			c.Distinct("point-boundary-class", "inside")
@@ -388,6 +462,7 @@ func writeAll(c reporter, cs *Case, caseKey string) *caseResult {
 	// determinism across batching: write everything again as one shuffled batch
 	if len(cs.Spec.Reshards) == 0 {
 		store.got = map[int64][]stored{}
+		store.refused = map[int64]bool{}
 		all := make([]int, 0, len(cs.Points))
 		for _, b := range cs.Batches {
 			all = append(all, b...)
@@ -453,10 +528,10 @@ func shardKeySet(spec *CatSpec, mst string) map[string]bool {
 // It returns the number of violations found.
 func checkQuery(c reporter, cs *Case, res *caseResult, q *Query, caseKey string, qi int) int {
 	text := q.Text()
-	var set map[uint64]bool
+	var sets map[string]map[uint64]bool
 	var reduced string
 	var err error
-	if p, st := catchStack(func() { set, reduced, err = readSet(res.m, text, q.Mst) }); p != nil {
+	if p, st := catchStack(func() { sets, reduced, err = readSet(res.m, text, q.Mst) }); p != nil {
 		c.Violation("read:panic:"+topFrame(st), fmt.Sprintf("query preparation panicked: %v\n%s", p, st), witnessOne(cs, q, nil))
 		return 1
 	}
@@ -480,6 +555,7 @@ func checkQuery(c reporter, cs *Case, res *caseResult, q *Query, caseKey string,
 			continue
 		}
 		matched++
+		set := sets[p.Mst]
 		if !set[sh] {
 			viol++
 			if viol > 1 {
@@ -494,8 +570,14 @@ func checkQuery(c reporter, cs *Case, res *caseResult, q *Query, caseKey string,
 				}
 			}
 			alt := ""
-			if ms.AlterAfter > 0 {
+			if cs.Spec.mst(p.Mst).AlterAfter > 0 {
 				alt = "/altered-shard-key"
+			}
+			if q.FromRegex {
+				alt += "/regex-source"
+			}
+			if q.Hint != "" {
+				alt += "/hint-" + q.Hint
 			}
 			sig := fmt.Sprintf("read:matching-point-in-unconsulted-shard/%s/%s%s", ms.Type, class, alt)
 			ids := make([]uint64, 0, len(set))
@@ -520,7 +602,18 @@ func checkQuery(c reporter, cs *Case, res *caseResult, q *Query, caseKey string,
 	if q.Cond.orWithNonTagSide(keys) {
 		c.Count("queries-or-with-operand-lacking-shard-key-equality", 1)
 	}
-	pruned := len(set) < total
+	if q.Hint != "" {
+		c.Count("queries-with-hint:"+q.Hint, 1)
+	}
+	consulted := 0
+	for _, set := range sets {
+		consulted += len(set)
+	}
+	if q.FromRegex {
+		total *= len(cs.Spec.Msts)
+		c.Count("queries-with-regex-source", 1)
+	}
+	pruned := consulted < total
 	if pruned {
 		c.Count("queries-consulting-a-strict-subset-of-shards", 1)
 	}
@@ -689,7 +782,7 @@ func genCase(r *rand.Rand, policy string, nPoints, nQueries int) *Case {
 		bounds = append(bounds, base+int64(i)*int64(dur))
 	}
 	if !allAuto && r.IntN(100) < 30 {
-		s.PreGroupsAt = []int64{bounds[r.IntN(nSlots)] + int64(dur)/2}
+		s.PreGroupsAt = []I64{I64(bounds[r.IntN(nSlots)] + int64(dur)/2)}
 	}
 	pickTime := func() int64 {
 		b := bounds[r.IntN(len(bounds))]
@@ -718,7 +811,7 @@ func genCase(r *rand.Rand, policy string, nPoints, nQueries int) *Case {
 	for i := 0; i < nPoints; i++ {
 		ms := &s.Msts[r.IntN(len(s.Msts))]
 		p := Point{ID: int64(i + 1), Mst: ms.Name, Tags: map[string]string{}, Usage: float64(r.IntN(17)) / 2, Cnt: int64(r.IntN(8)),
-			Status: statusVals[r.IntN(len(statusVals))], T: pickTime()}
+			Status: statusVals[r.IntN(len(statusVals))], T: I64(pickTime())}
 		key := shardKeySet(s, ms.Name)
 		for _, k := range ms.Tags {
 			if !key[k] && r.IntN(100) < 12 {
@@ -746,10 +839,28 @@ func genCase(r *rand.Rand, policy string, nPoints, nQueries int) *Case {
 		cs.Points = append(cs.Points, p)
 	}
 	cs.TagOrder = append([]string{}, tagPool...)
-	// batches: three shuffled batches
-	perm := r.Perm(nPoints)
-	cut1, cut2 := nPoints/3, 2*nPoints/3
-	cs.Batches = [][]int{perm[:cut1], perm[cut1:cut2], perm[cut2:]}
+	// batches: three shuffled batches. A time slot (future shard group) first appears in a
+	// random batch, so that some shard groups are created only after the catalogue changes
+	// (ALTER ... SHARDKEY, re-sharding) scheduled between the batches.
+	firstBatch := map[int64]int{}
+	slotOf := func(t int64) int64 {
+		d := t - base
+		if d < 0 {
+			return -1 - (-d-1)/int64(dur)
+		}
+		return d / int64(dur)
+	}
+	cs.Batches = [][]int{nil, nil, nil}
+	for _, i := range r.Perm(nPoints) {
+		sl := slotOf(int64(cs.Points[i].T))
+		fb, ok := firstBatch[sl]
+		if !ok {
+			fb = r.IntN(3)
+			firstBatch[sl] = fb
+		}
+		b := fb + r.IntN(3-fb)
+		cs.Batches[b] = append(cs.Batches[b], i)
+	}
 	// RANGE re-sharding (bounds taken from real shard-key strings)
 	if typ == "range" && total >= 2 && r.IntN(100) < 70 {
 		keys := map[string]bool{}
@@ -787,7 +898,7 @@ func genCase(r *rand.Rand, policy string, nPoints, nQueries int) *Case {
 			for _, i := range pick {
 				bs = append(bs, ks[i])
 			}
-			s.Reshards = append(s.Reshards, Reshard{AfterBatch: 1 + r.IntN(2), SplitTime: -int64(1 + r.IntN(3)), Bounds: bs})
+			s.Reshards = append(s.Reshards, Reshard{AfterBatch: 1 + r.IntN(2), SplitTime: -I64(1 + r.IntN(3)), Bounds: bs})
 		}
 	}
 	// queries
@@ -802,15 +913,43 @@ func genCase(r *rand.Rand, policy string, nPoints, nQueries int) *Case {
 			}
 			g.tagVals[k] = append(append([]string{}, tagDomain[k][:domSize[k]]...), "nosuch")
 		}
-		q := Query{Mst: ms.Name, Cond: g.gen(1 + r.IntN(5)), Form: r.IntN(32)}
+		q := Query{Mst: ms.Name, Cond: g.gen(1 + r.IntN(5)), Form: r.IntN(32), FromRegex: len(s.Msts) > 1 && r.IntN(100) < 8}
+		if r.IntN(100) < 6 {
+			// hint query: the condition names every tag of one existing series
+			var cand []*Point
+			for pi := range cs.Points {
+				if cs.Points[pi].Mst == ms.Name && !expectReject(s, &cs.Points[pi]) {
+					cand = append(cand, &cs.Points[pi])
+				}
+			}
+			if len(cand) > 0 {
+				p := cand[r.IntN(len(cand))]
+				ks := make([]string, 0, len(p.Tags))
+				for k := range p.Tags {
+					ks = append(ks, k)
+				}
+				sort.Strings(ks)
+				var tree *Cond
+				for _, k := range ks {
+					leaf := &Cond{Kind: kTagEq, Key: k, Val: p.Tags[k]}
+					if tree == nil {
+						tree = leaf
+					} else {
+						tree = &Cond{Kind: kAnd, L: tree, R: leaf}
+					}
+				}
+				q.Cond, q.FromRegex = tree, false
+				q.Hint = []string{"full_series", "specific_series"}[r.IntN(2)]
+			}
+		}
 		if r.IntN(100) < 55 {
-			t := pickTime()
+			t := I64(pickTime())
 			q.TMin = &t
 		}
 		if r.IntN(100) < 55 {
-			t := pickTime()
+			t := I64(pickTime())
 			if q.TMin != nil && t <= *q.TMin {
-				t = *q.TMin + 1 + r.Int64N(2*int64(dur))
+				t = *q.TMin + 1 + I64(r.Int64N(2*int64(dur)))
 			}
 			q.TMax = &t
 		}
@@ -868,4 +1007,15 @@ func runCase(c reporter, cs *Case, caseKey string) int {
 		viol += checkQuery(c, cs, res, &cs.Queries[qi], caseKey, qi)
 	}
 	return viol
+}
+
+func dumpExpr(e influxql.Expr) string {
+	switch x := e.(type) {
+	case *influxql.BinaryExpr:
+		return fmt.Sprintf("Bin[%s](%s, %s)", x.Op, dumpExpr(x.LHS), dumpExpr(x.RHS))
+	case *influxql.ParenExpr:
+		return fmt.Sprintf("Paren(%s)", dumpExpr(x.Expr))
+	default:
+		return fmt.Sprintf("%T:%s", e, e)
+	}
 }
